@@ -2,7 +2,7 @@
 # try_seeded.sh <ID> [tier] — apply each /tmp/mut/<ID>/MUTATION/patchN.diff to /repo, run the check, undo
 id=$1; tier=${2:-quick}
 cd /verif
-for p in /tmp/mut/$id/MUTATION/patch*.diff; do
+for p in ${MUTBASE:-/tmp/mut}/$id/MUTATION/patch*.diff; do
   [ -f "$p" ] || continue
   n=$(basename $p .diff | sed 's/patch//')
   git -C /repo checkout -q -- . 
